@@ -238,6 +238,10 @@ def _augment_tables(P):
                 return env[e.value.id][e.slice.value]
             if isinstance(e, ast.Tuple):
                 return tuple(value(x, env) for x in e.elts)
+            if isinstance(e, ast.IfExp):
+                return value(e.body, env) if truth(e.test, env) else value(e.orelse, env)
+            if isinstance(e, ast.Attribute) and norm(e).endswith(".one"):
+                return "one"
             raise AnalysisError(f"{f.qual}: expression `{norm(e)}` not understood")
 
         def run(stmts, env, in_arcs):
@@ -254,11 +258,15 @@ def _augment_tables(P):
                     env["__spawn__"] = kws
                     env["__T__"] = s.targets[0].id
                     continue
-                if isinstance(s, ast.Assign) and len(s.targets) == 1 and in_arcs:
-                    t = s.targets[0]
-                    if isinstance(t, ast.Name):
-                        env[t.id] = value(s.value, env)
-                        continue
+                if isinstance(s, ast.Assign) and len(s.targets) == 1 and isinstance(s.targets[0], ast.Name):
+                    env[s.targets[0].id] = value(s.value, env)
+                    continue
+                if isinstance(s, ast.Assign) and len(s.targets) == 1 and isinstance(s.targets[0], ast.Tuple) and isinstance(s.value, ast.Tuple) \
+                        and len(s.targets[0].elts) == len(s.value.elts):
+                    vals = [value(x, env) for x in s.value.elts]
+                    for t, v in zip(s.targets[0].elts, vals):
+                        env[t.id] = v
+                    continue
                 if isinstance(s, ast.For):
                     it = s.iter
                     if norm(it) == "self.states":
